@@ -10,23 +10,10 @@ raw bytes to the library's own parseNetlinkAuditMessage (harness/cmd/drive/clien
 Partial by nature (named so in the manifest): the atomicity of `atomic.AddUint32`, the Go memory
 model and the kernel's side of netlink are assumptions of the interleaving model, not theorems.
 -/
-import LA.Proofs.Netlink
-import LA.Spec.Uapi
+import LA.Proofs.Uapi
 
 namespace LA.Netlink
 open LA.Spec
-
-/-! the independent decoder of Spec/Uapi agrees with the model's readers -/
-
-theorem uapi_byteAt (b : Bytes) (i : Nat) : Uapi.byteAt b i = rd8 b i := by
-  simp only [Uapi.byteAt, rd8, List.getD_eq_getElem?_getD]
-  cases b[i]? <;> rfl
-
-theorem uapi_field4 (b : Bytes) (off : Nat) : Uapi.field b off 4 = rd32 b off := by
-  simp [Uapi.field, uapi_byteAt, rd32, Nat.add_assoc]; omega
-
-theorem uapi_field2 (b : Bytes) (off : Nat) : Uapi.field b off 2 = rd16 b off := by
-  simp [Uapi.field, uapi_byteAt, rd16]
 
 /-- Framing: for every header and payload that fit their Go types, the serialized message is
 16 + |payload| bytes; decoded at the offsets of `struct nlmsghdr` it carries that length, the
